@@ -186,8 +186,8 @@ pub fn minimise(full: &Scenario, a: &Obs, b: &Obs, budget: usize) -> Option<Mini
         let core = Scenario {
             inputs: cur.inputs.clone(),
             worlds: vec![
-                World { name: "W0".into(), env: vec![], ops: vec![Op::Spawn { w: 0, entropy: 0 }, Op::Expand { w: 0, input: sh.target }] },
-                World { name: "W1".into(), env: vec![], ops: vec![Op::Spawn { w: 0, entropy: e }, Op::Expand { w: 0, input: sh.target }] },
+                World { name: "W0".into(), env: vec![], ops: vec![Op::Spawn { w: 0, entropy: 0 }, Op::Expand { w: 0, input: sh.target, fmt: 0 }] },
+                World { name: "W1".into(), env: vec![], ops: vec![Op::Spawn { w: 0, entropy: e }, Op::Expand { w: 0, input: sh.target, fmt: 0 }] },
             ],
         };
         if let Some(v) = sh.fails(&core) {
@@ -205,10 +205,10 @@ pub fn minimise(full: &Scenario, a: &Obs, b: &Obs, budget: usize) -> Option<Mini
                 one.worlds.remove(0);
                 one.worlds[0].ops = vec![
                     Op::Spawn { w: 0, entropy: 0 },
-                    Op::Expand { w: 0, input: sh.target },
+                    Op::Expand { w: 0, input: sh.target, fmt: 0 },
                     Op::Kill { w: 0 },
                     Op::Spawn { w: 1, entropy: 0 },
-                    Op::Expand { w: 1, input: sh.target },
+                    Op::Expand { w: 1, input: sh.target, fmt: 0 },
                 ];
                 if let Some(v) = sh.fails(&one) {
                     sh.log.push("stage2: also reproduces inside one process (first vs second expansion on fresh workers)".into());
@@ -285,6 +285,25 @@ pub fn minimise(full: &Scenario, a: &Obs, b: &Obs, budget: usize) -> Option<Mini
                     }
                     let names: Vec<&str> = cur.worlds[wi].env.iter().map(|(k, _)| k.as_str()).collect();
                     sh.log.push(format!("stage3: world {} needs environment {:?}", cur.worlds[wi].name, names));
+                }
+            }
+            // presentation of the input: does it matter at all?
+            {
+                let mut c = cur.clone();
+                for w in c.worlds.iter_mut() {
+                    for op in w.ops.iter_mut() {
+                        if let Op::Expand { fmt, .. } = op {
+                            *fmt = 0;
+                        }
+                    }
+                }
+                if c != cur {
+                    if let Some(v) = sh.fails(&c) {
+                        cur = c;
+                        verdict = v;
+                    } else {
+                        sh.log.push("stage3: needs a different presentation (blanks / comments) of the same tokens".into());
+                    }
                 }
             }
             // perturbation kinds, one kind at a time
